@@ -133,7 +133,7 @@ pub fn instances_with_units() -> Vec<Inst> {
     v
 }
 
-pub const SEPS: &[&str] = &[" ", "\n", "\t", "/*c*/", "//c\n", "  \n ", "", "//é√\n", "/*√é*/"];
+pub const SEPS: &[&str] = &[" ", "\n", "\t", "/*c*/", "//c\n", "  \n ", "", "//é√\n", "/*√é*/", "\u{b}", "\u{c}", "\r\n"];
 
 fn wordish(c: char) -> bool {
     c.is_alphanumeric() || c == '_' || !c.is_ascii() || matches!(c, '.' | '$' | '#' | '@' | '"' | '\'')
